@@ -413,7 +413,11 @@ def run_case(ctx, case, build):
         kw = dict(method=case['method'], weighting=case['weighting'], prior_lambda=case['lam'], prior_weight=case['w'])
         if case['prec'] is not None:
             kw['noise'] = case['prec'].copy()
-        ok6, one = ctx.guarded('calc_one_similarity', sig, calc_one_similarity, Dataset(mm[ra].copy()), Dataset(mm[rb_].copy()),
+        # integer measurements go to the helper as integers (the property: integer and float inputs give the same result)
+        src = np.asarray(meas) if np.issubdtype(np.asarray(meas).dtype, np.integer) else mm
+        if src is not mm:
+            ctx.count('calc_one_similarity_integer_inputs')
+        ok6, one = ctx.guarded('calc_one_similarity', sig, calc_one_similarity, Dataset(src[ra].copy()), Dataset(src[rb_].copy()),
                                cvi, cvj, data=wit, **kw)
         if ok6:
             ctx.case('calc_one_similarity', sig)
